@@ -42,6 +42,7 @@ type E7Spec struct {
 	TrimCutset    []FuncRuleSpec     `json:"trim_cutset"`
 	DecodeGlobal  []FuncRuleSpec     `json:"decode_into_global"`
 	ReturnGlobal  []FuncRuleSpec     `json:"return_global_address"`
+	EveryElement  []FuncRuleSpec     `json:"every_element"`
 }
 
 type FuncRuleSpec struct {
@@ -158,6 +159,9 @@ func runE7(p *Program, sp *Spec, c *Collector) {
 	}
 	for _, rg := range t.ReturnGlobal {
 		runReturnGlobal(p, c, rg)
+	}
+	for _, ee := range t.EveryElement {
+		runEveryElement(p, c, ee)
 	}
 	for _, n := range t.NoExit {
 		runNoExit(p, sp, c, n)
@@ -2513,5 +2517,40 @@ func runReturnGlobal(p *Program, c *Collector, a FuncRuleSpec) {
 	}
 	if n == 0 {
 		c.Ob(a.Props, "E7.return-global-address", "returnglobal:"+strings.Join(a.Funcs, ","), Discharged, a.What+": no result is the address of a package-level variable", "", true)
+	}
+}
+
+
+// ---------------------------------------------------------------------------------------------
+// every element counts: a function that turns a list (the arguments of a statement) into records must not keep "the value of
+// the last iteration" of a loop — a variable overwritten on each iteration and used after the loop. In the symbolic
+// form of the function such a variable is a `last` accumulator; none may occur in what the function returns or emits.
+
+func runEveryElement(p *Program, c *Collector, a FuncRuleSpec) {
+	for _, fn := range expandFuncs(p, c, a.Funcs, a.Props...) {
+		sf := newSymFn(p, fn, 0)
+		sf.inlineOK = func(*ssa.Function) bool { return false }
+		key := "everyelement:" + p.FuncKey(fn)
+		var found *Sym
+		look := func(t *Sym) {
+			if t == nil {
+				return
+			}
+			t.walk(func(x *Sym) {
+				if x.Op == "last" && found == nil {
+					found = x
+				}
+			})
+		}
+		look(sf.returnSym())
+		for _, e := range sf.emissions() {
+			look(e.elem)
+			look(e.cond)
+		}
+		if found != nil {
+			c.Ob(a.Props, "E7.every-element", key, Violated, a.What+": a value assigned inside a loop over "+clip(found.Kids[0].String(), 120)+" is overwritten on every iteration and only its last value is used afterwards: of several elements all but the last are lost", p.FuncPos(fn), false)
+		} else {
+			c.Ob(a.Props, "E7.every-element", key, Discharged, "no result depends on the last iteration of a loop only", p.FuncPos(fn), true)
+		}
 	}
 }
